@@ -982,4 +982,57 @@ theorem name_build (sample : Option Nat) : ∀ (os : List Out) (g : G), (build s
   | [], _ => rfl
   | o :: os, g => (name_build sample os (gStep sample g o)).trans (name_gStep sample g o)
 
+/-! ## print_time_unit -/
+
+/-- the loop of `print_time_unit` written out: which unit is chosen and what the two numbers are.
+    `hm` = 60 (repaired) or 24 (as it is) "minutes per hour". -/
+theorem tuLoop_cases (hm ns : Nat) :
+    tuLoop [1000, 1000, 1000, 60, hm] 0 ns =
+      if ns / 1000 < 1000 then (ns / 1000, ns % 1000, 0)
+      else if ns / 1000 / 1000 < 1000 then (ns / 1000 / 1000, ns / 1000 % 1000, 1)
+      else if ns / 1000 / 1000 / 1000 < 60 then (ns / 1000 / 1000 / 1000, ns / 1000 / 1000 % 1000, 2)
+      else if ns / 1000 / 1000 / 1000 / 60 < hm then
+        (ns / 1000 / 1000 / 1000 / 60, ns / 1000 / 1000 / 1000 % 60, 3)
+      else (ns / 1000 / 1000 / 1000 / 60 / hm, ns / 1000 / 1000 / 1000 / 60 % hm, 4) := by
+  simp only [tuLoop]
+
+/-- the repaired table: the printed pair denotes the time rounded down to the three-digit step of
+    its unit (ns for us, us for ms, ms for s, seconds for m, minutes for h), for every time below
+    1000 hours -/
+theorem timeUnit_fixed_exact (ns : Nat) (hlt : ns < 3600000000000000) :
+    let r := timeUnit true ns
+    r.2.2 ≤ 4 ∧ r.2.1 * subNs r.2.2 < unitNs r.2.2 ∧
+    r.1 * unitNs r.2.2 + r.2.1 * subNs r.2.2 ≤ ns ∧ ns < r.1 * unitNs r.2.2 + (r.2.1 + 1) * subNs r.2.2 := by
+  simp only [timeUnit, tuLimits, ↓reduceIte, tuLoop_cases]
+  split
+  · rename_i h
+    have : ¬ 999 < ns / 1000 := by omega
+    simp only [this, ↓reduceIte, unitNs, subNs]; omega
+  · rename_i h
+    split
+    · rename_i h2
+      have : ¬ 999 < ns / 1000 / 1000 := by omega
+      simp only [this, ↓reduceIte, unitNs, subNs]; omega
+    · rename_i h2
+      split
+      · rename_i h3
+        have : ¬ 999 < ns / 1000 / 1000 / 1000 := by omega
+        simp only [this, ↓reduceIte, unitNs, subNs]; omega
+      · rename_i h3
+        split
+        · rename_i h4
+          have : ¬ 999 < ns / 1000 / 1000 / 1000 / 60 := by omega
+          simp only [this, ↓reduceIte, unitNs, subNs]; omega
+        · rename_i h4
+          have : ¬ 999 < ns / 1000 / 1000 / 1000 / 60 / 60 := by omega
+          simp only [this, ↓reduceIte, unitNs, subNs]; omega
+
+/-- below 24 minutes the table as it is prints the same as the repaired one -/
+theorem timeUnit_prefix_small (ns : Nat) (h : ns < 1440000000000) :
+    timeUnit false ns = timeUnit true ns := by
+  simp only [timeUnit, tuLimits, ↓reduceIte, tuLoop_cases, Bool.false_eq_true]
+  have h4 : ns / 1000 / 1000 / 1000 / 60 < 24 := by omega
+  have h4' : ns / 1000 / 1000 / 1000 / 60 < 60 := by omega
+  simp only [h4, h4', ↓reduceIte]
+
 end Uft.Graph
